@@ -660,6 +660,14 @@ class Walker:
         f = self.fold(t)
         if f is not None:
             return f
+        if isinstance(t, ast.UnaryOp) and isinstance(t.op, ast.Not) and getattr(self, '_truth_depth', 0) < 3:
+            self._truth_depth = getattr(self, '_truth_depth', 0) + 1
+            try:
+                inner = self.truth(t.operand, st)
+            finally:
+                self._truth_depth -= 1
+            if inner is not None:
+                return not inner
         # a conjunction with a conjunct known false is false, a disjunction with one known true is
         # true (the order of evaluation does not matter for the truth value of tests without effects)
         if isinstance(t, ast.BoolOp) and getattr(self, '_truth_depth', 0) < 3:
@@ -698,6 +706,10 @@ class Walker:
         if isinstance(t, ast.Compare) and len(t.ops) == 1 and isinstance(t.ops[0], (ast.Is, ast.IsNot)) and isinstance(t.comparators[0], ast.Constant) \
                 and t.comparators[0].value is None:
             subj = canon(t.left)
+            for g0, pol in st.guards:
+                # a value that tested true on this path is not None
+                if canon(g0 if pol else negate(g0)) == subj:
+                    return isinstance(t.ops[0], ast.IsNot)
             for g0, pol in st.guards:
                 g = g0 if pol else negate(g0)
                 if isinstance(g, ast.Call) and isinstance(g.func, ast.Name) and g.func.id == 'isinstance' and len(g.args) == 2 and canon(g.args[0]) == subj \
